@@ -117,23 +117,37 @@ impl Dag {
     // By default, all nodes are false, and calling this is required to make a
     // subtree visible during graph traversals.
     pub fn set_subtree_visibility(&mut self, node: usize, visible: bool) -> Result<(), GraphError> {
-        let mut work: VecDeque<usize> = VecDeque::new();
+        // Depth-first walk. `active` holds exactly the nodes on the path from `node`
+        // to the node being expanded, so reaching one of them again closes a cycle;
+        // reaching a node that was merely visited before (two paths to the same
+        // dependency) does not.
         let mut visited = HashSet::new();
         let mut active = HashSet::new();
-        work.push_front(node);
-        while let Some(n) = work.pop_front() {
-            self.visibility[n] = visible;
-            visited.insert(n);
-            active.remove(&n);
-            for &depn in &self.adj_list[n] {
+        // (node, index of the next dependency of that node to look at)
+        let mut stack: Vec<(usize, usize)> = Vec::new();
+        self.visibility[node] = visible;
+        visited.insert(node);
+        active.insert(node);
+        stack.push((node, 0));
+        while !stack.is_empty() {
+            let top = stack.len() - 1;
+            let (n, next) = stack[top];
+            if next < self.adj_list[n].len() {
+                stack[top] = (n, next + 1);
+                let depn = self.adj_list[n][next];
                 if active.contains(&depn) {
                     let label = self.get_label_by_node(&depn)?;
                     return Err(GraphError::Cycle(depn, label.to_owned()));
                 }
                 if !visited.contains(&depn) {
-                    work.push_back(depn);
+                    self.visibility[depn] = visible;
+                    visited.insert(depn);
                     active.insert(depn);
+                    stack.push((depn, 0));
                 }
+            } else {
+                active.remove(&n);
+                stack.pop();
             }
         }
 
